@@ -19,6 +19,7 @@ import VaxisModel.Lemmas.EmuBodyModes
 import VaxisModel.Lemmas.EmuBodyReflow
 import VaxisModel.Lemmas.EmuBodySgr
 import VaxisModel.Lemmas.EmuBodyOsc
+import VaxisModel.Lemmas.EmuBodyInline
 import VaxisModel.Lemmas.EmuSafe1
 
 namespace VaxisModel.Props.C05Bodies
@@ -221,6 +222,27 @@ theorem body_osc (e : Emu) (data : List Nat) (info : OscInfo) (hostEmpty : Bool)
 theorem cutString_pinned : TermBodies.cutStringSrc =
     "// Copied from stdlib to here for go 1.16 compat func cutString(s string, sep string) (before string, after string, found bool) { if i := strings.Index(s, sep); i >= 0 { return s[:i], s[i+len(sep):], true } return s, \"\", false }" :=
   cutString_source
+
+/-! ### the inline arms of the dispatchers that contain code (DECSCUSR, single shifts, keypad modes, charset designations, SO/SI) -/
+
+theorem body_csi_arm_2071 (e : Emu) (pm : List Param) :
+    evalBody TermBodies.body_csi_arm_2071 pm [] e = .ok { e with cur := { e.cur with shape := ps pm } } := body_csi_arm_2071_eq e pm
+theorem body_esc_arm_4e (e : Emu) : evalBody TermBodies.body_esc_arm_4e [] [] e = .ok { e with cs := { e.cs with ss := true, sel := 2 } } := body_esc_arm_4e_eq e
+theorem body_esc_arm_4f (e : Emu) : evalBody TermBodies.body_esc_arm_4f [] [] e = .ok { e with cs := { e.cs with ss := true, sel := 3 } } := body_esc_arm_4f_eq e
+theorem body_esc_arm_3d (e : Emu) :
+    evalBody TermBodies.body_esc_arm_3d [] [] e = .ok { e with mode := { e.mode with deckpam := true, deckpnm := false } } := body_esc_arm_3d_eq e
+theorem body_esc_arm_3e (e : Emu) :
+    evalBody TermBodies.body_esc_arm_3e [] [] e = .ok { e with mode := { e.mode with deckpnm := true, deckpam := false } } := body_esc_arm_3e_eq e
+theorem body_esc_arm_2830 (e : Emu) : evalBody TermBodies.body_esc_arm_2830 [] [] e = .ok { e with cs := { e.cs with g0 := 1 } } := body_esc_arm_2830_eq e
+theorem body_esc_arm_2930 (e : Emu) : evalBody TermBodies.body_esc_arm_2930 [] [] e = .ok { e with cs := { e.cs with g1 := 1 } } := body_esc_arm_2930_eq e
+theorem body_esc_arm_2a30 (e : Emu) : evalBody TermBodies.body_esc_arm_2a30 [] [] e = .ok { e with cs := { e.cs with g2 := 1 } } := body_esc_arm_2a30_eq e
+theorem body_esc_arm_2b30 (e : Emu) : evalBody TermBodies.body_esc_arm_2b30 [] [] e = .ok { e with cs := { e.cs with g3 := 1 } } := body_esc_arm_2b30_eq e
+theorem body_esc_arm_2842 (e : Emu) : evalBody TermBodies.body_esc_arm_2842 [] [] e = .ok { e with cs := { e.cs with g0 := 0 } } := body_esc_arm_2842_eq e
+theorem body_esc_arm_2942 (e : Emu) : evalBody TermBodies.body_esc_arm_2942 [] [] e = .ok { e with cs := { e.cs with g1 := 0 } } := body_esc_arm_2942_eq e
+theorem body_esc_arm_2a42 (e : Emu) : evalBody TermBodies.body_esc_arm_2a42 [] [] e = .ok { e with cs := { e.cs with g2 := 0 } } := body_esc_arm_2a42_eq e
+theorem body_esc_arm_2b42 (e : Emu) : evalBody TermBodies.body_esc_arm_2b42 [] [] e = .ok { e with cs := { e.cs with g3 := 0 } } := body_esc_arm_2b42_eq e
+theorem body_c0_arm_0e (e : Emu) : evalBody TermBodies.body_c0_arm_0e [] [] e = .ok { e with cs := { e.cs with sel := 1 } } := body_c0_arm_0e_eq e
+theorem body_c0_arm_0f (e : Emu) : evalBody TermBodies.body_c0_arm_0f [] [] e = .ok { e with cs := { e.cs with sel := 2 } } := body_c0_arm_0f_eq e
 
 /-! ### coverage -/
 
